@@ -1,6 +1,7 @@
 """Child R: a pristine process that never ran a history.  Recomputes the
 expected outcome of every checkable logged call from that call's arguments
 alone and returns verdicts."""
+import contextlib
 import os
 import pickle
 
@@ -98,7 +99,7 @@ class Refs(object):
         self.verdicts.sort(key=lambda v: (v['seq'], v['oracle']))
 
     def _outcome_here(self, thunk, errstate=False):
-        err = numpy.errstate(all='raise') if errstate else numpy.errstate()
+        err = numpy.errstate(all='raise') if errstate else contextlib.nullcontext()
         try:
             with err:
                 with env.cpu_limit():
@@ -423,6 +424,18 @@ class Refs(object):
                 ok = same_outcome(got, want)
                 lab = None if ok else self.label(ev['c'], got, call)
                 self.verdict('C06', 'O6.fwd', ev, ok, got=brief(got), want=brief(want), label=lab)
+                en = ev.get('enum')
+                if en:
+                    # the same evaluation, preceded by a forward evaluation (at other inputs) that was
+                    # interrupted at each source line of its kernels in turn
+                    self.count('enumerated_interrupt_points', en['lines'])
+                    for o in en['outcomes']:
+                        good = same_outcome(o['out'], want)
+                        self.verdict('C06', 'O6.enum', ev, good, got=brief(o['out']), want=brief(want),
+                                     detail=None if good else (
+                                         'after a forward evaluation interrupted at %s (and at %d other enumerated '
+                                         'points with the same effect) this evaluation returned %s instead of %s' % (
+                                             o['first_at'], o['count'] - 1, brief(o['out']), brief(want))))
             self.defer(pristine, es, cont6)
 
     def judge_rev(self, ev, step, prog, fargs):
@@ -442,6 +455,18 @@ class Refs(object):
             ok = same_outcome(got, want)
             lab = None if ok else self.label(ev['c'], got, call)
             self.verdict('C06', 'O6.rev', ev, ok, got=brief(got), want=brief(want), label=lab)
+            # fault enumeration: the same sweep, preceded by a sweep that was interrupted at
+            # each source line of its kernels in turn, must return the same adjoints
+            en = ev.get('enum')
+            if en:
+                self.count('enumerated_interrupt_points', en['lines'])
+                for o in en['outcomes']:
+                    good = same_outcome(o['out'], want)
+                    self.verdict('C06', 'O6.enum', ev, good, got=brief(o['out']), want=brief(want),
+                                 detail=None if good else (
+                                     'after a sweep interrupted at %s (and at %d other enumerated points with the '
+                                     'same effect) the next sweep returned %s instead of %s' % (
+                                         o['first_at'], o['count'] - 1, brief(o['out']), brief(want))))
         self.defer(pristine, False, cont)
 
     def judge_drv(self, ev, step, prog):
